@@ -26,7 +26,7 @@ class Malformed(Exception):
 TOKEN = re.compile(r"""
     (?P<ws>\s+)
   | (?P<num>\.?[0-9](?:[eEpP][+-]|[0-9a-zA-Z_.])*)
-  | (?P<id>[A-Za-z_][A-Za-z_0-9]*)
+  | (?P<id>[^\W\d]\w*)                    # identifiers may hold letters outside ASCII (C11 annex D; gcc accepts UTF-8)
   | (?P<chr>(?:u8|u|U|L)?'(?:\\.|[^'\\\n])*')
   | (?P<str>"(?:\\.|[^"\\\n])*")
   | (?P<op>\|\||&&|<<|>>|<=|>=|==|!=|[-+!~*/%<>&^|?:(),])
